@@ -150,16 +150,24 @@ def rank_oracle(case):
     if case["regime"] == "reversed" and abs(D) > 1e-12:
         raise Violation(f"inversely ordered forecasts score {D!r}, not 0")
     f, g = MAPS[case["fmap"]], MAPS[case["gmap"]]
+    # the map must keep distinct values further apart than the tie
+    # tolerance (exp(x/10) squeezes large negative values together)
+    gv = np.unique(g(sim))
+    g_ok = len(gv) < 2 or np.min(np.diff(gv)) > 100 * max(eps_, 1e-6)
+    if not g_ok:
+        labels.append("map-squeezes-values:not-judged")
     for what, d in [
         (f"monotone map {case['fmap']} of the observations",
-         metrics.dscore(f(obs), sim.copy())),
+         metrics.dscore(f(obs), sim.copy(), eps=eps_)),
         (f"monotone map {case['gmap']} of the forecasts",
-         metrics.dscore(obs, np.ascontiguousarray(g(sim)))),
+         metrics.dscore(obs, np.ascontiguousarray(g(sim)), eps=eps_)
+         if g_ok else D),
         ("a common member permutation",
-         metrics.dscore(obs, np.ascontiguousarray(sim[:, case["perm"]]))),
+         metrics.dscore(obs, np.ascontiguousarray(sim[:, case["perm"]]),
+                        eps=eps_)),
         ("independent member permutations",
          metrics.dscore(obs, np.array([sim[i][case["rowperm"][i]]
-                                       for i in range(n)]))),
+                                       for i in range(n)]), eps=eps_)),
     ]:
         if not abs(d - D) <= 1e-12:
             raise Violation(f"dscore changes under {what}: {D!r} -> {d!r}")
